@@ -225,6 +225,7 @@ async def reset_always_lands_in_idle_with_nothing_left(configured: bool):
 class Phase:
     fail = False
     ready = False
+    interfere = 0      # what another task of the connection raises while the client handles CONNECTION_SPA_COMPLETE
 
 
 @summary("geckolib.async_locator:GeckoAsyncLocator.discover", name="discover_may_raise", note="stand-in: returns or raises")
@@ -240,7 +241,14 @@ async def connect_may_raise_or_complete(self):
     if Phase.fail:
         raise RuntimeError("socket error")
     if Phase.ready:
+        self._is_connected = True                       # the real handshake sets this just before reporting completion
         await self._event_handler(E.CONNECTION_SPA_COMPLETE)
+        # the client's handler for that event may suspend; the RF-error and refresh tasks of this spa are
+        # already running and may report in the meantime
+        if Phase.interfere == 1:
+            await self._event_handler(E.ERROR_TOO_MANY_RF_ERRORS)
+        if Phase.interfere == 2:
+            await self._event_handler(E.ERROR_PROTOCOL_RETRY_COUNT_EXCEEDED)
 
 
 @summary("geckolib.automation.async_facade:GeckoAsyncFacade.__init__", name="facade_ctor", note="stand-in constructor (C11 proves the real one)")
@@ -256,7 +264,9 @@ class Descr:
 
 @harness(prop="C08", target="geckolib.async_spa_manager:GeckoAsyncSpaMan.async_locate_spas",
          uses=["discover_may_raise", "connect_may_raise_or_complete", "facade_ctor"])
-async def started_phases_are_always_finished(fail: bool, ready: bool, connect_phase: bool):
+async def started_phases_are_always_finished(fail: bool, ready: bool, connect_phase: bool, interfere: int):
+    requires(both(0 <= interfere, interfere <= 2))
+    Phase.interfere = concrete_cases(interfere, 0, 2)
     Phase.fail = fail
     Phase.ready = ready
     m = make_man(S.LOCATED_SPAS if connect_phase else S.IDLE, False, False, True, False)
@@ -275,7 +285,10 @@ async def started_phases_are_always_finished(fail: bool, ready: bool, connect_ph
     ensures("phase-finished-once-even-when-it-raises", len([d for d in m.deliveries if d is finished]) == 1)
     ensures("finished-comes-after-started", m.deliveries.index(started) < m.deliveries.index(finished))
     if connect_phase:
-        if ready and not fail:
+        if ready and not fail and Phase.interfere != 0:
+            ensures("error-raised-during-completion-is-not-overridden",
+                    both(m._spa_state is S.ERROR_NEEDS_ATTENTION, m._facade is None, m.bracket == 0))
+        elif ready and not fail:
             ensures("connected-with-facade-and-ready-announced",
                     both(m._spa_state is S.CONNECTED, m._facade is not None, m.bracket == 1))
         else:
